@@ -105,7 +105,20 @@ def applyCmd (d : Db) : Cmd → Db
 
 def replay (d : Db) (cs : List Cmd) : Db := cs.foldl applyCmd d
 
-abbrev Config := List (String × String)     -- (id, address)
+/-- one entry of a raft configuration / of raft/peers.json -/
+structure Peer where
+  id    : String
+  addr  : String
+  voter : Bool := true
+deriving Repr, DecidableEq
+
+abbrev Config := List Peer     -- in file order
+
+/-- `checkRaftConfiguration`: a PURE test of the configuration (it returns only an error):
+no empty id or address, ids distinct, addresses distinct, at least one voter -/
+def checkConfig (c : Config) : Bool :=
+  c.all (fun p => p.id != "" && p.addr != "") &&
+  (c.map (·.id)).Nodup && (c.map (·.addr)).Nodup && c.any (·.voter)
 
 structure Node where
   -- durable
@@ -325,8 +338,11 @@ def openRebuild (n : Node) : Node := replayLog (restoreNewest n)
 def openNode (n : Node) : Node :=
   match n.peersFile with
   | some peers =>
-    -- recovery requested: the existing database file is invalid, never the fast path
-    openRebuild (recoverNode (openPrep n) peers)
+    -- recovery requested: the existing database file is invalid, never the fast path.
+    -- `Open` has removed the fingerprint before `RecoverNode` validates the file; an invalid
+    -- file makes `Open` fail there: the node stays down, the peers file stays
+    if checkConfig peers then openRebuild (recoverNode (openPrep n) peers)
+    else { n with fp := false }
   | none =>
     match n.snap with
     | some (i, _) =>
@@ -345,7 +361,7 @@ statements: `p:k:v` put, `i:k:v` ins, `d:k` del, `a:k:x` add, `b` bad, `t:k=v;k=
 `load <k=v;k=v|->`              → `ok` ; `loadbad` → `ok` ; `boot <rows>` → `ok`
 `snap <trailing>`               → `ok`   complete snapshot
 `s-ckpt` `s-persist` `s-install` `s-fp` `s-compact <trailing>` → `ok`   snapshot micro-steps
-`crash` → `ok` ; `close <0|1>` → `ok` ; `open` → `ok` ; `peers <id@addr;…>` → `ok`
+`crash` → `ok` ; `close <0|1>` → `ok` ; `open` → `ok|open-failed` ; `peers <id@addr[/N];…>` → `ok` ; `nopeers` → `ok`
 `forcerestore` → `ok`  (Store.ForceSnapshotRestore: remove the fingerprint while down)
 `dump`  → `k=v;k=v` or `-`  ;  `fullneeded` → `true|false` ; `config` → `id@addr;…`
 `snapidx` → `<n>|-` -/
@@ -380,15 +396,21 @@ def parseStmt (t : String) : Option Stmt :=
 def showDb (d : Db) : String :=
   if d.isEmpty then "-" else joinWith ";" (d.map fun kv => s!"{kv.1}={kv.2}")
 
+/-- `id@addr` a voter, `id@addr/N` a non-voter; `;`-separated, file order -/
+def parsePeer (t : String) : Option Peer :=
+  match t.splitOn "@" with
+  | [i, a] =>
+    match a.splitOn "/" with
+    | [a'] => some ⟨i, a', true⟩
+    | [a', "N"] => some ⟨i, a', false⟩
+    | _ => none
+  | _ => none
+
 def parseConfig (t : String) : Option Config :=
-  if t == "-" then some [] else
-    (t.splitOn ";").mapM fun (s : String) =>
-      match s.splitOn "@" with
-      | [i, a] => some (i, a)
-      | _ => none
+  if t == "-" then some [] else (t.splitOn ";").mapM parsePeer
 
 def showConfig (c : Config) : String :=
-  if c.isEmpty then "-" else joinWith ";" (c.map fun ia => s!"{ia.1}@{ia.2}")
+  if c.isEmpty then "-" else joinWith ";" (c.map fun p => s!"{p.id}@{p.addr}" ++ (if p.voter then "" else "/N"))
 
 def step (d : DState) (line : String) : DState × String :=
   let n := d.n
@@ -427,7 +449,12 @@ def step (d : DState) (line : String) : DState × String :=
     | none => (d, "bad-op")
   | ["crash"] => upd (crash n)
   | ["close", f] => if n.up then upd (closeNode n (f == "1")) else (d, "bad-op")
-  | ["open"] => if n.up then (d, "bad-op") else upd (openNode n)
+  | ["open"] =>
+    if n.up then (d, "bad-op")
+    else
+      let n' := openNode n
+      ({ d with n := n' }, if n'.up then "ok" else "open-failed")
+  | ["nopeers"] => if n.up then (d, "bad-op") else upd { n with peersFile := none }
   | ["forcerestore"] => if n.up then (d, "bad-op") else upd { n with fp := false }
   | ["peers", c] =>
     match parseConfig c with
